@@ -1,4 +1,10 @@
-CLAIMED = {}
+CLAIMED = {
+    "C01": {
+        "text": "Lean 4 theorems over an executable model of the scalar stack machine (compiler correctness of the postfix code for every nesting depth; conversions/functions as Lean definitions mirroring the Go code) with an independent denotational XPath 1.0 semantics over a soft IEEE-754 binary64 (SF64) as oracle; the model is tied to /repo on every run by differential execution of the real compiler+machine against model and spec (typed random expressions, boundary operands, absent/multi-valued leaves) and of Go float64 primitives against SF64 bit-for-bit.",
+        "note": "Trusted: Lean kernel; harness+driver; SF64 = Go float64 (checked by stream 'sf', not proved); mock Entry contract. M = S for round()/number()/string() primitives is checked by correspondence, the machine-vs-tree theorem is proved. Known finding: number('Infinity').",
+        "technique": "Lean 4 proof (compiler correctness by structural induction) + differential correspondence model/spec vs real code",
+    },
+}
 NOT_APPLICABLE = {}
-SOURCE_COMMITS = []
+SOURCE_COMMITS = []  # no hook commits: all observation points are public API
 NOTES = "See DESIGN.md. Every check: regenerate facts from /repo, lake build the property's theorems (+ #print axioms audit), run correspondence streams real-code vs Lean model vs Lean spec."
